@@ -169,3 +169,10 @@ for _qn, _vis in [("func_adl_xAOD.atlas.xaod.executor.atlas_xaod_executor", "fun
                       ("declared_types_left_as_the_query_declared_them@C10,C07", "g_method_type_dict == old(g_method_type_dict)")])
 contract("func_adl.ast.call_stack.argument_stack", assumed=True, params=dict(), result=RefOf(ARGSTACK), fresh_result=True, modifies=["alloc"],
          ensures=["result != None"], note="func_adl: a new, empty lambda-argument stack")
+# ---- C09: two small refusal sites -----------------------------------------------------------------------------------------------------------
+contract("func_adl_xAOD.atlas.xaod.jets.getAttribute", props=["C09"], params=dict(call_node=CALLN), raises={"RuntimeError": "True"},
+         ensures=[("never_returns", "False")], note="the templated getAttribute cannot be expressed: every call is refused")
+contract(EX + "_is_format_request", props=["C09", "C03"], params=dict(a=Ref), result=Bool,
+         requires=["a != None and live(a)", "implies(isinst(a, 'ast.Call'), field(a, 'func') != None and live(field(a, 'func')))"],
+         raises={"ValueError": "not isinst(a, 'ast.Call') or not isinst(field(a, 'func'), 'ast.Name')"},
+         ensures=[("explicit_tree_request", "result == (field(field(a, 'func'), 'id') == 'ResultTTree')")])
